@@ -121,7 +121,8 @@ func (e *vhEnv) vhStep(i int) bool {
 	verifrt.Assume(r < 1<<30)
 	all := 1<<uint(e.n) - 1
 	ok := true
-	switch verifrt.Choose("event", 5) {
+	e.voteAsked, e.voteAnswered = false, false
+	switch verifrt.Choose("event", 6) {
 	case 0: // proposed header A or B
 		tag := []string{"A", "B"}[verifrt.Choose("ph-tag", 2)]
 		ok = e.guard("K3:addProposedHeader-panics", func() {
@@ -149,6 +150,7 @@ func (e *vhEnv) vhStep(i int) bool {
 		ok = e.guard("K3:addPrecommit-panics", func() {
 			e.k.addPrecommit(e.ctx, e.s, AddPrecommitRequest{H: h, R: r, PrecommitUpdates: upd, Response: resp})
 		})
+		e.noteVoteAnswer(ok, resp)
 	case 3: // prevotes
 		hash := []string{"", "A"}[verifrt.Choose("prevote-target", 2)]
 		signers := []int{all, 1}[verifrt.Choose("prevote-signers", 2)]
@@ -164,7 +166,8 @@ func (e *vhEnv) vhStep(i int) bool {
 		ok = e.guard("K3:addPrevote-panics", func() {
 			e.k.addPrevote(e.ctx, e.s, AddPrevoteRequest{H: h, R: r, PrevoteUpdates: upd, Response: resp})
 		})
-	default: // replayed header A or B with a full-quorum proof for round r
+		e.noteVoteAnswer(ok, resp)
+	case 4: // replayed header A or B with a full-quorum proof for round r
 		tag := []string{"A", "B"}[verifrt.Choose("replay-tag", 2)]
 		hdr := e.header(tag, h, e.vs)
 		linked := verifrt.Choose("replay-linked", 2) == 0
@@ -185,6 +188,35 @@ func (e *vhEnv) vhStep(i int) bool {
 		ok = e.guard("K3:handleReplayedHeader-panics", func() {
 			_ = e.k.handleReplayedHeader(e.ctx, e.s, hdr, proof)
 		})
+	default:
+		// Two concurrent mirror callers looked the voting view up before either was applied:
+		// caller Y sends a nil vote of validator 1; caller X sends a vote of validator 0 for A plus
+		// the same nil vote, both with the block versions it saw. X is partially applicable.
+		vh, vr := e.s.Voting.Height, e.s.Voting.Round
+		verifrt.Assume(verifrt.And(h == vh, r == vr))
+		precommit := verifrt.Choose("mixed-kind", 2) == 1
+		y := e.grow(&e.s.Voting, precommit, "", 2)
+		xa := e.grow(&e.s.Voting, precommit, "A", 1)
+		xn := e.grow(&e.s.Voting, precommit, "", 2)
+		var pvA, pvN uint32
+		if precommit {
+			pvA, pvN = e.s.Voting.PrecommitBlockVersions["A"], e.s.Voting.PrecommitBlockVersions[""]
+		} else {
+			pvA, pvN = e.s.Voting.PrevoteBlockVersions["A"], e.s.Voting.PrevoteBlockVersions[""]
+		}
+		resp := make(chan AddVoteResult, 1)
+		if precommit {
+			ok = e.guard("K3:addPrecommit-panics", func() {
+				e.k.addPrecommit(e.ctx, e.s, AddPrecommitRequest{H: vh, R: vr, PrecommitUpdates: map[string]VoteUpdate{"": {Proof: y, PrevVersion: pvN}}, Response: make(chan AddVoteResult, 1)})
+				e.k.addPrecommit(e.ctx, e.s, AddPrecommitRequest{H: vh, R: vr, PrecommitUpdates: map[string]VoteUpdate{"A": {Proof: xa, PrevVersion: pvA}, "": {Proof: xn, PrevVersion: pvN}}, Response: resp})
+			})
+		} else {
+			ok = e.guard("K3:addPrevote-panics", func() {
+				e.k.addPrevote(e.ctx, e.s, AddPrevoteRequest{H: vh, R: vr, PrevoteUpdates: map[string]VoteUpdate{"": {Proof: y, PrevVersion: pvN}}, Response: make(chan AddVoteResult, 1)})
+				e.k.addPrevote(e.ctx, e.s, AddPrevoteRequest{H: vh, R: vr, PrevoteUpdates: map[string]VoteUpdate{"A": {Proof: xa, PrevVersion: pvA}, "": {Proof: xn, PrevVersion: pvN}}, Response: resp})
+			})
+		}
+		e.noteVoteAnswer(ok, resp)
 	}
 	return ok
 }
@@ -209,4 +241,47 @@ func vhStart(which int) (*vhEnv, uint64) {
 			PrecommitUpdates: map[string]VoteUpdate{"": {Proof: e.voteProof(true, ih+1, 0, "", 7)}}, Response: make(chan AddVoteResult, 1)})
 	}
 	return e, ih + 4
+}
+
+// noteVoteAnswer records the kernel's answer to an add-vote request.
+func (e *vhEnv) noteVoteAnswer(ok bool, resp chan AddVoteResult) {
+	e.voteAsked = ok
+	if ok && len(resp) == 1 {
+		e.voteAnswered = true
+		e.voteAnswer = <-resp
+	}
+}
+
+// summaryMatchesProofs: the view's vote summary equals the recomputation from its proofs
+// (powers are concrete in the step harnesses).
+func (e *vhEnv) summaryMatchesProofs(tag string, v *tmconsensus.VersionedRoundView) {
+	var avail uint64
+	for _, val := range v.ValidatorSet.Validators {
+		avail += val.Power
+	}
+	check := func(kind string, proofs map[string]gcrypto.CommonMessageSignatureProof, total uint64, block map[string]uint64) {
+		var union uint64
+		for hash, p := range proofs {
+			var w, pow uint64
+			for i, val := range v.ValidatorSet.Validators {
+				if has, _ := p.HasSparseKeyID([]byte{0, byte(i)}); has {
+					w |= 1 << uint(i)
+					pow += val.Power
+				}
+			}
+			union |= w
+			verifrt.Assert(block[hash] == pow, tag+":"+kind+"-block-power-matches-admitted-signatures")
+		}
+		var tot uint64
+		for i, val := range v.ValidatorSet.Validators {
+			if union&(1<<uint(i)) != 0 {
+				tot += val.Power
+			}
+		}
+		verifrt.Assert(total == tot, tag+":"+kind+"-total-power-matches-admitted-signatures")
+		verifrt.Assert(len(block) == len(proofs), tag+":"+kind+"-block-power-entries-match-proofs")
+	}
+	verifrt.Assert(v.VoteSummary.AvailablePower == avail, tag+":available-power-is-sum-of-validator-powers")
+	check("prevote", v.PrevoteProofs, v.VoteSummary.TotalPrevotePower, v.VoteSummary.PrevoteBlockPower)
+	check("precommit", v.PrecommitProofs, v.VoteSummary.TotalPrecommitPower, v.VoteSummary.PrecommitBlockPower)
 }
